@@ -57,7 +57,6 @@ import (
 	"github.com/tink-crypto/tink-go/v2/verifbridge/vb"
 	"verif/h"
 	"verif/tape"
-	"verif/tk"
 )
 
 var tok = insecuresecretdataaccess.Token{}
@@ -175,7 +174,8 @@ func keyIDSection(x *h.X) {
 		return 0, nil, fmt.Errorf("id %#x not in the handle", id)
 	}
 	fieldsOf := func(id uint32, k key.Key, le bool) []field {
-		fs := []field{{"key id", idBytes(id, le)}}
+		var fs []field
+		_ = le
 		if entry != "Manager.AddKey(key without id requirement)" && entry != legacyEntry {
 			fs = append(fs, field{"key material", k.(*aesgcm.Key).KeyBytes().Data(tok)})
 		}
@@ -213,26 +213,18 @@ func keyIDSection(x *h.X) {
 			x.Fail("id-requirement", "%s: key requires id %#x but got keyset id %#x", cfg, idr, id)
 		}
 	}
-	// every byte value at every id position (the id draw is located on a counter run, then scripted)
-	e.load(cCounter)
-	var idDraw = -1
-	{
-		km := keyset.NewManager()
-		m := e.tp.Mark()
-		id, _, err := add(km)
-		if err != nil {
-			x.Fail("keygen-error", "%s: %v", entry, err)
-			return
-		}
-		for i, d := range e.tp.Since(m) {
-			if d.N == 4 && (bytes.Equal(e.tp.Bytes(d.Off, 4), be32(id)) || bytes.Equal(e.tp.Bytes(d.Off, 4), idBytes(id, true))) {
-				idDraw = i
-			}
-		}
-		if idDraw < 0 {
-			x.Fail("id-not-drawn-bytes", "%s: no 4-byte draw carries the id %#x", entry, id)
-			return
-		}
+	// Which of the draws of one call does the id come from? The property does not say HOW an id is made from entropy
+	// (verbatim 4 bytes, little/big endian, 8 bytes folded to 4, ...), so the id source is found by perturbation: a draw
+	// is an id source when answering it with other bytes changes the id.
+	gen := func() (uint32, error) { id, _, err := add(keyset.NewManager()); return id, err }
+	src, ok := idSources(e, gen)
+	if !ok {
+		x.Fail("keygen-error", "%s %s: generation on the counter tape failed", entry, variant)
+		return
+	}
+	if len(src.idx) == 0 {
+		x.Fail("id-not-drawn-bytes", "%s %s: the key id %#x does not depend on any entropy drawn in the call (draws %v)", entry, variant, src.id, src.ds)
+		return
 	}
 	vals := []int{0, 1, 0x7f, 0x80, 0xfe, 0xff}
 	if x.Thorough() {
@@ -241,46 +233,80 @@ func keyIDSection(x *h.X) {
 			vals = append(vals, v)
 		}
 	}
-	// The id must be an INJECTIVE image of the four drawn bytes that uses all 32 bits (then a uniform draw gives a
-	// uniform id): distinct draws give distinct ids, and every id bit takes both values over the enumerated draws.
-	seenDraw := map[uint32]uint32{} // id -> draw
+	// Full range / uniform spread: with all other entropy fixed, the id is an INJECTIVE function of every byte of its
+	// source draws (then a uniform byte gives a uniform contribution), and over the enumerated answers every one of the
+	// 32 id bits takes both values.
 	var orBits, andBits uint32 = 0, 0xFFFFFFFF
-	for pos := 0; pos < 4; pos++ {
-		for _, v := range vals {
-			e.load(cCounter)
-			b := []byte{0x11, 0x22, 0x33, 0x44}
-			b[pos] = byte(v)
-			e.tp.Answer(idDraw, b)
-			id, _, err := add(keyset.NewManager())
-			x.Eval(1)
-			if err != nil {
-				x.Fail("keygen-error", "%s %s: %v", entry, variant, err)
+	sensitive := 0
+	for _, di := range src.idx {
+		base := src.bytes[di]
+		for pos := range base {
+			seen := map[uint32]int{}
+			for _, v := range vals {
+				e.load(cCounter)
+				b := bytes.Clone(base)
+				b[pos] = byte(v)
+				e.tp.Answer(di, b)
+				id, err := gen()
+				x.Eval(1)
+				if err != nil {
+					x.Fail("keygen-error", "%s %s: %v", entry, variant, err)
+					return
+				}
+				seen[id] = v
+				orBits |= id
+				andBits &= id
+			}
+			// a byte of the source draw is either surplus (no answer changes the id) or used WHOLE (every answer gives
+			// another id); a byte of which only some bits reach the id loses entropy
+			if len(seen) > 1 && len(seen) < len(vals) {
+				x.Fail("id-not-drawn-bytes", "%s %s: byte %d of id source draw #%d: %d answers give only %d different ids: the id does not use the whole drawn byte", entry, variant, pos, di, len(vals), len(seen))
 				return
 			}
-			draw := binary.BigEndian.Uint32(b)
-			if prev, dup := seenDraw[id]; dup && prev != draw {
-				x.Fail("id-not-drawn-bytes", "%s %s: entropy answers %08x and %08x for the id draw give the SAME id %#x: the id does not use all drawn bytes", entry, variant, prev, draw, id)
-				return
+			if len(seen) > 1 {
+				sensitive++
 			}
-			seenDraw[id] = draw
-			orBits |= id
-			andBits &= id
 		}
 	}
+	if sensitive < 4 {
+		x.Fail("id-not-drawn-bytes", "%s %s: only %d drawn byte positions influence the id: fewer than 32 bits of entropy", entry, variant, sensitive)
+		return
+	}
 	if orBits != 0xFFFFFFFF || andBits != 0 {
-		x.Fail("id-not-drawn-bytes", "%s %s: over all enumerated id draws some id bits never change (or=%#x and=%#x): ids do not cover the 32-bit range", entry, variant, orBits, andBits)
+		x.Fail("id-not-drawn-bytes", "%s %s: over all enumerated answers of the id source draws some id bits never change (or=%#x and=%#x): ids do not cover the 32-bit range", entry, variant, orBits, andBits)
 		return
 	}
 	if entry == "keyset.NewHandle" {
 		return
 	}
-	// one manager: ids of a history are pairwise distinct, also when the entropy source repeats earlier ids
-	// k = 1..3 times in a row (forced collisions): a colliding draw is discarded and a fresh 4 bytes are drawn
+	// one manager: ids of a history are pairwise distinct, also when the entropy source REPEATS the bytes that produced
+	// earlier ids k = 1..3 times in a row (forced collisions)
+	S := len(src.idx)
+	contiguous := true
+	for t := 1; t < S; t++ {
+		contiguous = contiguous && src.idx[t] == src.idx[0]+t
+	}
+	if !contiguous {
+		x.Outcome("id-source-draws-not-contiguous")
+		return
+	}
+	idx0 := src.idx[0]
+	stepBytes := func(ds []tape.Draw, step int) [][]byte {
+		var out [][]byte
+		for t := 0; t < S; t++ {
+			i := idx0 + step*S + t
+			if i >= len(ds) {
+				return nil
+			}
+			out = append(out, e.tp.Bytes(ds[i].Off, ds[i].N))
+		}
+		return out
+	}
 	for k := 0; k <= 3; k++ {
 		e.load(cCounter)
 		km := keyset.NewManager()
 		var ids []uint32
-		var raws [][]byte // the four bytes whose draw produced each id (replayed verbatim to force a collision, whatever the byte order)
+		var raws [][][]byte // per id handed out: the bytes of its source draws (replayed verbatim to force a collision)
 		m0 := e.tp.Mark()
 		id0, _, err := add(km)
 		if err != nil {
@@ -288,16 +314,16 @@ func keyIDSection(x *h.X) {
 			return
 		}
 		ids = append(ids, id0)
-		if d0 := e.tp.Since(m0); len(d0) > idDraw {
-			raws = append(raws, e.tp.Bytes(d0[idDraw].Off, 4))
-		} else {
-			raws = append(raws, be32(id0))
+		if sb := stepBytes(e.tp.Since(m0), 0); sb != nil {
+			raws = append(raws, sb)
 		}
-		for round := 0; round < 3; round++ {
+		for round := 0; round < 3 && len(raws) > 0; round++ {
 			m := e.tp.Mark()
-			// script: the id draw and the k-1 following draws repeat the bytes that produced ids already handed out
 			for j := 0; j < k; j++ {
-				e.tp.Answer(m+idDraw+j, raws[j%len(raws)])
+				r := raws[j%len(raws)]
+				for t := 0; t < S; t++ {
+					e.tp.Answer(m+idx0+j*S+t, r[t])
+				}
 			}
 			id, _, err := add(km)
 			x.Eval(1)
@@ -307,29 +333,56 @@ func keyIDSection(x *h.X) {
 			}
 			for _, o := range ids {
 				if o == id {
-					x.Fail("id-repeats", "%s: manager handed out id %#x twice (entropy source repeating an earlier id %d times; ids so far %x)", entry, id, k, ids)
+					x.Fail("id-repeats", "%s: manager handed out id %#x twice (entropy source repeating the bytes of earlier ids %d times; ids so far %x)", entry, id, k, ids)
 					return
 				}
 			}
-			ds := e.tp.Since(m)
-			n4 := 0
-			for _, d := range ds {
-				if d.N == 4 {
-					n4++
-				}
-			}
-			if n4 != k+1 {
-				x.Fail("id-redraw", "%s: %d forced collisions must lead to %d four-byte id draws, saw %v", entry, k, k+1, ds)
-			}
-			// the accepted id is the big-endian value of the LAST four-byte id draw (unscripted: tape bytes)
-			last := ds[idDraw+k]
-			if last.N != 4 || !(bytes.Equal(e.tp.Bytes(last.Off, 4), be32(id)) || bytes.Equal(e.tp.Bytes(last.Off, 4), idBytes(id, true))) {
-				x.Fail("id-not-drawn-bytes", "%s: after %d collisions id %#x is not the value of the fresh draw %v", entry, k, id, last)
-			}
 			ids = append(ids, id)
-			raws = append(raws, e.tp.Bytes(last.Off, 4))
+			if sb := stepBytes(e.tp.Since(m), k); sb != nil {
+				raws = append(raws, sb)
+			}
 		}
 	}
+}
+
+// idSources runs gen on the counter tape and finds, by perturbation, the draws the id depends on.
+type idSrc struct {
+	id    uint32
+	ds    []tape.Draw
+	bytes map[int][]byte // draw index -> bytes served on the counter tape
+	idx   []int          // indices of the draws that influence the id
+}
+
+func idSources(e *env, gen func() (uint32, error)) (*idSrc, bool) {
+	e.load(cCounter)
+	m := e.tp.Mark()
+	id0, err := gen()
+	if err != nil {
+		return nil, false
+	}
+	src := &idSrc{id: id0, ds: e.tp.Since(m), bytes: map[int][]byte{}}
+	for i, d := range src.ds {
+		src.bytes[i] = e.tp.Bytes(d.Off, d.N)
+	}
+	for i := range src.ds {
+		changed := false
+		for _, mask := range []byte{0xFF, 0x55} {
+			e.load(cCounter)
+			b := bytes.Clone(src.bytes[i])
+			for j := range b {
+				b[j] ^= mask
+			}
+			e.tp.Answer(i, b)
+			id, err := gen()
+			if err == nil && id != id0 {
+				changed = true
+			}
+		}
+		if changed {
+			src.idx = append(src.idx, i)
+		}
+	}
+	return src, true
 }
 
 // ---------------------------------------------------------------------------------------------------
@@ -625,12 +678,11 @@ type generated struct {
 	km     keyMaterial
 	ds     []tape.Draw
 	stream []byte
-	idDraw int // index in ds of the id draw
 }
 
 func generate(e *env, entry string, params key.Parameters, kt *tinkpb.KeyTemplate, cfg string) (*generated, bool) {
 	x := e.x
-	g := &generated{idDraw: -1}
+	g := &generated{}
 	var err error
 	g.ds, g.stream = e.call(func() {
 		if entry == "keyset.NewHandle" {
@@ -664,30 +716,7 @@ func generate(e *env, entry string, params key.Parameters, kt *tinkpb.KeyTemplat
 		x.Fail("harness-unknown-key-type", "%s: no material extractor for %T", cfg, g.key)
 		return nil, false
 	}
-	for i, dd := range g.ds {
-		if dd.N == 4 && (bytes.Equal(e.tp.Bytes(dd.Off, 4), be32(g.id)) || bytes.Equal(e.tp.Bytes(dd.Off, 4), idBytes(g.id, true))) && g.idDraw < 0 {
-			g.idDraw = i
-		}
-	}
-	if g.idDraw < 0 {
-		x.Fail("id-not-drawn-bytes", "%s: no 4-byte draw carries the key id %#x (draws %v)", cfg, g.id, g.ds)
-		return nil, false
-	}
 	return g, true
-}
-
-// materialTargets: absolute tape offsets of all drawn bytes of the generation except the id draw.
-func (g *generated) materialTargets() []int {
-	var out []int
-	for i, dd := range g.ds {
-		if i == g.idDraw {
-			continue
-		}
-		for j := 0; j < dd.N; j++ {
-			out = append(out, dd.Off+j)
-		}
-	}
-	return out
 }
 
 func rsaPrimeFromDraw(b []byte) []byte {
@@ -728,135 +757,130 @@ func keygenSection(x *h.X) {
 	}
 	x.NonTrivial()
 	km := g0.km
+	class := "identity"
+	need := 0 // bytes of entropy the key must depend on
+	for _, f := range km.identity {
+		need += len(f.b)
+	}
 	switch {
-	case km.identity != nil && km.private == nil && km.p == nil:
-		x.Outcome("identity/" + fmt.Sprintf("%T", g0.key))
-		// L1 for every tape content; L2: two generations on one tape
-		span := total(g0.ds)
-		for _, tc := range identityContents(span, x.Thorough() && !gd.heavy()) {
-			cfg := fmt.Sprintf("%s tape=%v", desc, tc)
-			e.load(tc)
-			end := 0
-			var mats [][]byte
-			for gen := 0; gen < 2; gen++ {
-				g, ok := generate(e, entry, params, kt, cfg)
-				if !ok {
-					return
-				}
-				fs := append([]field{{"key id", be32(g.id)}}, g.km.identity...)
-				ok, why := tile(g.stream, fs)
-				if !ok { // the id's byte order is not part of the property
-					ok, _ = tile(g.stream, append([]field{{"key id", idBytes(g.id, true)}}, g.km.identity...))
-				}
-				if !ok {
-					x.Fail("key-not-drawn-bytes", "%s generation %d: key material is not the entropy drawn in this call (draws %v): %s", cfg, gen, g.ds, why)
-					return
-				}
-				end = consecutive(x, cfg, end, g.ds)
-				var all []byte
-				for _, f := range g.km.identity {
-					all = append(all, f.b...)
-				}
-				mats = append(mats, all)
-				if tc.name != "counter" {
-					break
-				}
-			}
-			if tc.name == "counter" {
-				distinct(x, "key-repeats", cfg, "key material of two generations", mats)
-			}
-		}
 	case km.private != nil:
-		x.Outcome("ec-scalar/" + fmt.Sprintf("%T", g0.key))
-		// (composite keys: the identity components (ML-DSA seed) must each be exactly one draw)
-		explained := map[int]bool{g0.idDraw: true}
-		for _, f := range km.identity {
-			found := false
-			for i, dd := range g0.ds {
-				if !explained[i] && dd.N == len(f.b) && bytes.Equal(e.tp.Bytes(dd.Off, dd.N), f.b) {
-					explained[i], found = true, true
-					break
-				}
+		class = "ec-scalar"
+		need += len(km.private)
+	case km.p != nil:
+		class = "rsa"
+		need = len(km.p) + len(km.q) - 4
+	}
+	x.Outcome(class + "/" + fmt.Sprintf("%T", g0.key))
+	image := func(g *generated) []byte {
+		out := append(g.km.privImage(), g.km.p...)
+		out = append(out, g.km.q...)
+		return append(out, g.km.public...)
+	}
+	img0 := image(g0)
+	// The property constrains the RESULT (new keys differ; ids spread uniformly), not how entropy is turned into a key:
+	// verbatim bytes, XOR of two reads, modular reduction of a longer read, rejection sampling, extra guard bytes are
+	// all fine. Judged, in a form every such implementation satisfies:
+	// G1 fresh: a second generation continues the tape (disjoint entropy) and gives a different key
+	g1, ok := generate(e, entry, params, kt, desc+" (second generation)")
+	if !ok {
+		return
+	}
+	consecutive(x, desc, consecutive(x, desc, start, g0.ds), g1.ds)
+	if bytes.Equal(image(g1), img0) || (len(km.public) > 0 && bytes.Equal(g1.km.public, km.public)) || (km.p != nil && (bytes.Equal(g1.km.p, km.p) || bytes.Equal(g1.km.q, km.q) || bytes.Equal(g1.km.p, km.q))) {
+		x.Fail("key-repeats", "%s: two generations on one tape give the same key material", desc)
+		return
+	}
+	// G2 a function of the entropy: the same tape gives the same key
+	e.load(cCounter)
+	if g, ok := generate(e, entry, params, kt, desc+" replay"); !ok {
+		return
+	} else if !bytes.Equal(image(g), img0) || g.id != g0.id {
+		x.Fail("not-reproducible", "%s: the same tape gives a different key / id", desc)
+		return
+	}
+	// which draws feed the id, which the key (by perturbation of whole draws)
+	var idSrc, keySrc []int
+	many := len(g0.ds) > 12 // prime search: hundreds of candidate draws, one key generation per perturbation is too dear
+	for i, dd := range g0.ds {
+		if many && dd.N > 8 {
+			// locate the accepted candidates directly (stdlib: top two bits and low bit forced); other draws of that
+			// size are rejected candidates. If no draw is recognised, G3 is skipped below (tolerant).
+			if c := rsaPrimeFromDraw(e.tp.Bytes(dd.Off, dd.N)); bytes.Equal(c, km.p) || bytes.Equal(c, km.q) {
+				keySrc = append(keySrc, i)
 			}
-			if !found {
-				x.Fail("key-not-drawn-bytes", "%s: %s %x is not a draw of this call (draws %v)", desc, f.name, f.b, g0.ds)
+			continue
+		}
+		idCh, keyCh := false, false
+		for _, mask := range []byte{0x10} {
+			e.load(cCounter)
+			b := e.tp.Bytes(dd.Off, dd.N)
+			for j := range b {
+				b[j] ^= mask
 			}
-		}
-		for i, dd := range g0.ds {
-			if !explained[i] && dd.N != km.scalar {
-				x.Fail("unexplained-draw", "%s: draw %v is neither the key id, an identity component nor a %d-byte private-scalar candidate", desc, dd, km.scalar)
-			}
-		}
-		if len(g0.ds) < 2+len(km.identity) {
-			x.Fail("short-draw", "%s: no draw for the private key (draws %v)", desc, g0.ds)
-		}
-		// L2: a second generation continues the tape and gives a different key
-		g1, ok := generate(e, entry, params, kt, desc+" (second generation)")
-		if !ok {
-			return
-		}
-		consecutive(x, desc, consecutive(x, desc, start, g0.ds), g1.ds)
-		if bytes.Equal(g1.km.privImage(), km.privImage()) || bytes.Equal(g1.km.public, km.public) {
-			x.Fail("key-repeats", "%s: two generations on one tape give the same key", desc)
-		}
-		// L4: same tape => same key; every drawn scalar byte matters
-		e.load(cCounter)
-		if g, ok := generate(e, entry, params, kt, desc+" replay"); ok && !g.key.Equal(g0.key) {
-			x.Fail("not-reproducible", "%s: the same tape gives a different key", desc)
-		}
-		privs, pubs := [][]byte{km.privImage()}, [][]byte{km.public}
-		targets := g0.materialTargets()
-		if !x.Thorough() {
-			var t2 []int
-			for i, t := range targets {
-				if i%4 == 0 || i == len(targets)-1 {
-					t2 = append(t2, t)
-				}
-			}
-			targets = t2
-		}
-		for _, t := range targets {
-			e.load(flipped(t, km.mask))
-			g, ok := generate(e, entry, params, kt, fmt.Sprintf("%s tape=counter with byte %d ^ %02x", desc, t-start, km.mask))
+			e.tp.Answer(i, b)
+			g, ok := generate(e, entry, params, kt, desc+" (perturbed draw)")
 			if !ok {
 				return
 			}
-			privs, pubs = append(privs, g.km.privImage()), append(pubs, g.km.public)
+			idCh = idCh || g.id != g0.id
+			keyCh = keyCh || !bytes.Equal(image(g), img0)
 		}
-		distinct(x, "key-ignores-drawn-byte", desc, "private keys under tapes differing in one drawn byte (index 0 = unmodified tape)", privs)
-		distinct(x, "key-ignores-drawn-byte", desc, "public keys under tapes differing in one drawn byte (index 0 = unmodified tape)", pubs)
-	case km.p != nil:
-		x.Outcome("rsa/" + fmt.Sprintf("%T", g0.key))
-		// L4 (exact): each prime is a drawn candidate with the two top bits and the low bit forced
-		check := func(g *generated, cfg string) {
-			for _, pr := range []struct {
-				n string
-				b []byte
-			}{{"p", g.km.p}, {"q", g.km.q}} {
-				found := false
-				for i, dd := range g.ds {
-					if i != g.idDraw && dd.N == len(pr.b) && bytes.Equal(rsaPrimeFromDraw(e.tp.Bytes(dd.Off, dd.N)), pr.b) {
-						found = true
-					}
-				}
-				if !found {
-					x.Fail("key-not-drawn-bytes", "%s: RSA prime %s = %s is not one of the %d drawn candidates (top two bits and low bit set)", cfg, pr.n, tk.Hex(pr.b), len(g.ds)-1)
-				}
-			}
+		if idCh {
+			idSrc = append(idSrc, i)
 		}
-		check(g0, desc)
-		g1, ok := generate(e, entry, params, kt, desc+" (second generation)")
+		if keyCh {
+			keySrc = append(keySrc, i)
+		}
+	}
+	if len(idSrc) == 0 {
+		x.Fail("id-not-drawn-bytes", "%s: the key id %#x does not depend on any entropy drawn in the call (draws %v)", desc, g0.id, g0.ds)
+		return
+	}
+	if len(keySrc) == 0 && many {
+		x.Outcome("g3-skipped:key-source-draws-not-located")
+		return
+	}
+	if len(keySrc) == 0 {
+		x.Fail("key-not-drawn-bytes", "%s: the key does not depend on any entropy drawn in the call (draws %v)", desc, g0.ds)
+		return
+	}
+	// G3 full length: at least `need` drawn BYTES influence the key (each one alone: flipping a bit in it changes the
+	// key). Bytes of the key's source draws that do not matter (guards, discarded surplus) are tolerated beyond that.
+	var targets []int
+	for _, i := range keySrc {
+		for j := 0; j < g0.ds[i].N; j++ {
+			targets = append(targets, g0.ds[i].Off+j)
+		}
+	}
+	surplus := len(targets) - need
+	if surplus < 0 {
+		x.Fail("short-draw", "%s: the draws the key depends on hold %d bytes, the key needs %d bytes of entropy (draws %v)", desc, len(targets), need, g0.ds)
+		return
+	}
+	stride := 1
+	if !x.Thorough() || gd.heavy() || class == "rsa" {
+		stride = 1 + len(targets)/24
+	}
+	mask := km.mask
+	if mask == 0 {
+		mask = 0x10
+	}
+	tested, insensitive := 0, 0
+	var dead []int
+	for ti := 0; ti < len(targets); ti += stride {
+		t := targets[ti]
+		e.load(flipped(t, mask))
+		g, ok := generate(e, entry, params, kt, fmt.Sprintf("%s tape=counter with byte %d ^ %02x", desc, t-start, mask))
 		if !ok {
 			return
 		}
-		check(g1, desc+" (second generation)")
-		consecutive(x, desc, consecutive(x, desc, start, g0.ds), g1.ds)
-		if bytes.Equal(g1.km.public, km.public) || bytes.Equal(g1.km.p, km.p) || bytes.Equal(g1.km.q, km.q) || bytes.Equal(g1.km.p, km.q) {
-			x.Fail("key-repeats", "%s: two generations on one tape share a prime / modulus", desc)
+		tested++
+		if bytes.Equal(image(g), img0) {
+			insensitive++
+			dead = append(dead, t-start)
 		}
-		e.load(cCounter)
-		if g, ok := generate(e, entry, params, kt, desc+" replay"); ok && !g.key.Equal(g0.key) {
-			x.Fail("not-reproducible", "%s: the same tape gives a different key", desc)
-		}
+	}
+	if insensitive > surplus {
+		x.Fail("key-ignores-drawn-byte", "%s: %d of %d tested bytes of the key's source draws do not influence the key (offsets %v) although only %d bytes are surplus: the key uses less than %d bytes of entropy", desc, insensitive, tested, dead, surplus, need)
 	}
 }
